@@ -60,6 +60,8 @@ type Report struct {
 	Witnesses   []map[string]any
 	t0          time.Time
 	seen        map[string]bool
+	sealed      bool
+	View        string // "as written" or "inlined normal form"
 }
 
 func NewReport(property, tier string) *Report {
@@ -131,41 +133,10 @@ func loadJSON(path string, v any) error {
 // verdict lines and returns the process exit code.
 func (r *Report) Finish(P *Program) int {
 	vd := VerifDir()
-	// floors: a rule that matches fewer instances than confirmed by hand fails
-	floors := map[string]map[string]int{}
-	if err := loadJSON(filepath.Join(vd, "tables", "floors.json"), &floors); err != nil {
-		r.Undecided("floors", "-", "tables/floors.json", "-", "cannot read floors table: "+err.Error())
-	}
-	if fl, ok := floors[r.Property]; ok {
-		rules := make([]string, 0, len(fl))
-		for k := range fl {
-			rules = append(rules, k)
-		}
-		sort.Strings(rules)
-		for _, rule := range rules {
-			n := r.Count(rule)
-			if n < fl[rule] {
-				r.add("floor", "-", rule, "-", "violated", fmt.Sprintf("rule %s matched %d instances, floor confirmed by hand is %d (a rule must not pass vacuously)", rule, n, fl[rule]))
-			}
-		}
-	} else {
-		r.Undecided("floors", "-", r.Property, "-", "no floor entry for this property")
-	}
-	var known []KnownFinding
-	if err := loadJSON(filepath.Join(vd, "known_findings.json"), &known); err != nil {
-		r.Undecided("known-findings", "-", "known_findings.json", "-", "cannot read: "+err.Error())
-	}
-	usedKnown := map[int]bool{}
+	r.seal(true)
 	for _, o := range r.Obls {
-		if o.Status != "violated" {
-			continue
-		}
-		for i, k := range known {
-			if k.Status == "known" && k.Property == r.Property && k.Rule == o.Rule && k.Func == o.Func && k.Construct == o.Construct {
-				o.Status = "known-finding"
-				usedKnown[i] = true
-				fmt.Printf("KNOWN-FINDING: property=%s %s [%s] %s\n", r.Property, k.ID, o.Key(), k.WhatFails)
-			}
+		if o.Status == "known-finding" {
+			fmt.Printf("KNOWN-FINDING: property=%s [%s] %s\n", r.Property, o.Key(), o.Detail)
 		}
 	}
 	outDir := filepath.Join(vd, "out", r.Property)
@@ -211,6 +182,7 @@ func (r *Report) Finish(P *Program) int {
 		"samples":             samples,
 		"per_rule":            perRule,
 		"explanation":         r.Explanation,
+		"view":                r.View,
 		"analysed":            r.Analysed,
 		"exhaustive":          true,
 		"checker_cmd":         fmt.Sprintf("bin/elyslint check -property %s -tier %s", r.Property, r.Tier),
@@ -264,33 +236,57 @@ func (r *Report) Finish(P *Program) int {
 	return 0
 }
 
-// Violations computes the verdict (floors and known findings applied) without writing
-// evidence or replay files; used by the seeded-change matrix tool.
-func (r *Report) Violations() []*Obligation {
+// seal applies the floors and the known-findings file exactly once.
+func (r *Report) seal(print bool) {
+	if r.sealed {
+		return
+	}
+	r.sealed = true
 	vd := VerifDir()
+	// floors: a rule that matches fewer instances than confirmed by hand fails
 	floors := map[string]map[string]int{}
-	loadJSON(filepath.Join(vd, "tables", "floors.json"), &floors)
+	if err := loadJSON(filepath.Join(vd, "tables", "floors.json"), &floors); err != nil {
+		r.Undecided("floors", "-", "tables/floors.json", "-", "cannot read floors table: "+err.Error())
+	}
 	if fl, ok := floors[r.Property]; ok {
-		for rule, min := range fl {
-			if n := r.Count(rule); n < min {
-				r.add("floor", "-", rule, "-", "violated", fmt.Sprintf("rule %s matched %d instances, floor %d", rule, n, min))
+		rules := make([]string, 0, len(fl))
+		for k := range fl {
+			rules = append(rules, k)
+		}
+		sort.Strings(rules)
+		for _, rule := range rules {
+			n := r.Count(rule)
+			if n < fl[rule] {
+				r.add("floor", "-", rule, "-", "violated", fmt.Sprintf("rule %s matched %d instances, floor is %d (a rule must not pass vacuously)", rule, n, fl[rule]))
+			}
+		}
+	} else {
+		r.Undecided("floors", "-", r.Property, "-", "no floor entry for this property")
+	}
+	var known []KnownFinding
+	if err := loadJSON(filepath.Join(vd, "known_findings.json"), &known); err != nil {
+		r.Undecided("known-findings", "-", "known_findings.json", "-", "cannot read: "+err.Error())
+	}
+	for _, o := range r.Obls {
+		if o.Status != "violated" {
+			continue
+		}
+		for _, k := range known {
+			if k.Status == "known" && k.Property == r.Property && k.Rule == o.Rule && k.Func == o.Func && k.Construct == o.Construct {
+				o.Status = "known-finding"
+				o.Detail = k.ID + ": " + k.WhatFails
 			}
 		}
 	}
-	var known []KnownFinding
-	loadJSON(filepath.Join(vd, "known_findings.json"), &known)
+}
+
+// Violations computes the verdict (floors and known findings applied) without writing
+// evidence or replay files.
+func (r *Report) Violations() []*Obligation {
+	r.seal(false)
 	var out []*Obligation
 	for _, o := range r.Obls {
-		if o.Status == "discharged" {
-			continue
-		}
-		isKnown := false
-		for _, k := range known {
-			if k.Status == "known" && k.Property == r.Property && k.Rule == o.Rule && k.Func == o.Func && k.Construct == o.Construct {
-				isKnown = true
-			}
-		}
-		if !isKnown {
+		if o.Status == "violated" || o.Status == "undecided" {
 			out = append(out, o)
 		}
 	}
